@@ -206,6 +206,15 @@ class ConsumerPowerFormula(FormulaGenerator[Power]):
             )
             return builder.build()
 
+        # Meters that are not part of a battery, CHP, PV or EV charger chain can still
+        # have such components connected below them (together with the consumers).
+        # These have to be subtracted, exactly as it is done for grid meters.
+        if all(
+            component.category == ComponentCategory.METER
+            for component in consumer_components
+        ):
+            return self._gen_with_grid_meter(builder, consumer_components)
+
         if self._config.allow_fallback:
             fallbacks = self._get_fallback_formulas(consumer_components)
 
